@@ -171,6 +171,35 @@ func targeted() []*gen.Spec {
 		}},
 		gen.Block{App: []string{"Untilled"}, Members: []gen.Member{{Kind: gen.MSubscribe, App: []string{"Whiles 100%"}, Name: "Altered", Body: []gen.Stmt{act("noted")}}}},
 	)
+	// 11. regression for fixes/C02-6 (attributes merged into several places were shared, not copied):
+	//     (a) two collector entries with tags / an array of the same name hitting a call that is written three times;
+	//     (b) an array attribute of a REST method with the name of one on its path, followed by a sibling method
+	arr := func(vs ...string) proj.Attr {
+		a := proj.Attr{Kind: "a"}
+		for _, v := range vs {
+			a.Elts = append(a.Elts, strAttr(v))
+		}
+		return a
+	}
+	do := gen.Stmt{Kind: gen.KCall, Target: []string{"Svc"}, Ep: "Do"}
+	one(
+		gen.Block{App: []string{"Caller"}, Members: []gen.Member{
+			{Kind: gen.MCollector, Collector: []gen.CEntry{
+				{Kind: gen.CCall, Target: []string{"Svc"}, Ep: "Do", Attribs: []gen.Entry{{Tag: "one"}, {Name: "arr", Val: arr("x")}, {Name: "k", Val: strAttr("v")}}},
+				{Kind: gen.CCall, Target: []string{"Svc"}, Ep: "Do", Attribs: []gen.Entry{{Tag: "two"}, {Name: "arr", Val: arr("y")}}},
+				{Kind: gen.CAction, Ep: "Run", Attribs: []gen.Entry{{Tag: "onRun"}}},
+				{Kind: gen.CAction, Ep: "Run", Attribs: []gen.Entry{{Tag: "again"}}}}},
+			{Kind: gen.MEndpoint, Name: "Run", Body: []gen.Stmt{do,
+				{Kind: gen.KIf, Text: "x", Body: []gen.Stmt{{Kind: gen.KCall, Target: []string{"Svc"}, Ep: "Do", Attribs: []gen.Entry{{Tag: "own"}}},
+					{Kind: gen.KForEach, Text: "y in z", Body: []gen.Stmt{do, act("log it"), do}}}},
+				{Kind: gen.KOneOf, Cases: []gen.Case{{Label: "c1", Body: []gen.Stmt{do}}, {Label: "c2", Body: []gen.Stmt{{Kind: gen.KCall, Target: []string{"Svc"}, Ep: "Other"}}}}}}},
+			{Kind: gen.MRest, Rest: &gen.RestNode{Segs: []gen.PathSeg{{Static: "a"}}, Attribs: []gen.Entry{{Name: "x", Val: arr("1")}, {Tag: "p"}},
+				Children: []gen.RestChild{
+					{Method: &gen.Method{Verb: "GET", Attribs: []gen.Entry{{Name: "x", Val: arr("2")}, {Tag: "g"}}, Body: []gen.Stmt{{Kind: gen.KRet, Text: "ok"}}}},
+					{Method: &gen.Method{Verb: "POST", Body: []gen.Stmt{{Kind: gen.KRet, Text: "ok"}}}}}}},
+		}},
+		gen.Block{App: []string{"Svc"}, Members: []gen.Member{{Kind: gen.MEndpoint, Name: "Do"}, {Kind: gen.MEndpoint, Name: "Other"}}},
+	)
 	return out
 }
 
